@@ -568,6 +568,29 @@ func (e *aEnv) step(st aStep, idx int) (res aRes) {
 	case "view":
 		b, _ := base64.StdEncoding.DecodeString(st.B64)
 		res.View = viewOf(b)
+	case "follow":
+		// GET st.Path?st.Query, then follow `Link: <...>; rel=next` (at most 60 pages)
+		cur := st
+		cur.Op, cur.Method = "http", "GET"
+		pages := []aRes{}
+		for n := 0; n < 60; n++ {
+			r := e.doHTTP(cur, -1)
+			pages = append(pages, r)
+			link := ""
+			if v, ok := r.Headers["Link"]; ok && len(v) > 0 {
+				link = v[0]
+			}
+			if r.Panic != "" || link == "" || !strings.HasPrefix(link, "<") || !strings.Contains(link, ">; rel=next") {
+				break
+			}
+			lu, err := url.Parse(link[1:strings.Index(link, ">")])
+			if err != nil {
+				res.Err = "bad Link: " + link
+				break
+			}
+			cur.Path, cur.Query = lu.Path, lu.RawQuery
+		}
+		res.Par = [][]aRes{pages}
 	case "par":
 		res.Par = make([][]aRes, len(st.Par))
 		var wg sync.WaitGroup
